@@ -17,7 +17,9 @@ Events:  go (start, or continue, until the marker or the END sentinel) / run (to
          enter (run to END from the mid-chain instruction T2: a second entry point into the already translated chain
                 top..JMP, so that two OVERLAPPING translated blocks exist) /
          arm(t) (the next executions of S1 store the toggled value of target byte t: a GUEST write) /
-         hw(t) (vm.set_mem of the toggled value of target byte t: the documented HOST write path).
+         hw(t) (vm.set_mem of the toggled value of target byte t: the documented HOST write path) /
+         hw2(tu, tt) (one burst of two overlapping host writes: a wide vm.set_mem over T1 .. end of U1 - two blocks - toggling
+                      byte tu of U1, then a narrow vm.set_mem toggling byte tt of T1 inside the range just written).
 Targets: first / middle / last byte of T1 and of U1, the last byte of the block `top` (the displacement of JMP nxt, which is
 the last byte of the whole translated range while `nxt` is not translated yet), and the one-byte T2, U2 in the thorough tier; every alternative byte
 keeps the instruction length (ADD<->SUB EAX, other immediates, ADD ECX -> IMUL EAX,ECX / ADD EBX, INC<->DEC).
@@ -98,8 +100,13 @@ OVERLAP_TARGETS_QUICK = ["t1f", "t1l", "jl"]             # non-shared part of bl
 OVERLAP_TARGETS_THOROUGH = ["t1f", "t1m", "t1l", "jl", "t2"]
 STRSRC = DATA + 0x10          # source buffer of REP MOVSB
 GS_QUICK = [("nxt", "u1f")]                                                    # gcc only in the quick tier
-GS_THOROUGH = [("nxt", "u1f"), ("nxt", "u1m"), ("nxt", "u1l"), ("nxt", "u2"), ("t2", "t2"), ("t2", "jl")]
+GS_THOROUGH = [("nxt", "u1f"), ("nxt", "u1l"), ("t2", "jl")]     # (12 events per idle state made thorough 3x larger: 6 keep it in budget)
 GS_KINDS = ["stosb", "movsb"]
+# hw2(tu, tt): ONE burst of two overlapping host writes - vm.set_mem of the current bytes T1 .. end of U1 (it spans the rest of
+# block `top` and the start of block `nxt`) with byte tu of U1 toggled, then a narrow vm.set_mem toggling byte tt of T1, which
+# lies inside the first write and ends before its end (the access log must keep the tail of the first write)
+HW2_QUICK = {"python": [("u1f", "t1l"), ("u1l", "t1f")], "gcc": [("u1f", "t1l")]}
+HW2_THOROUGH = [("u1f", "t1l"), ("u1l", "t1f"), ("u1m", "t1m"), ("u1f", "t1f")]
 _P = {}
 
 
@@ -338,6 +345,9 @@ def events(st):
         # writes are only interesting when a run follows: histories are  seed ; <= 1 (quick) / 2 (thorough) writes ; runs
         # (a write after a partial run is what the half-translated / fully-translated seeds are for)
         return evs
+    if st.trailing_writes == 0 and not tog:
+        for tu, tt in (HW2_QUICK[st.backend] if quick else HW2_THOROUGH):
+            evs.append(("hw2", tu, tt))
     # a guest store still to come in this run? (iteration 2 has passed S1 already)
     store_ahead = st.ref.phase == "idle" or st.ref.stops < 2
     for t in targets:
@@ -415,6 +425,22 @@ def apply(st, ev):
         ref.mem[a - CODE] = v
         st.trailing_writes += 1
         st.nwrites += 0 if st.in_seed else 1
+        return []
+    if k == "hw2":
+        _, tu, tt = ev
+        au, vu = _toggle_value(st, tu)
+        at, vt = _toggle_value(st, tt)
+        lo, hi = p["ins"]["T1"], p["ins"]["U2"]
+        template = bytearray(ref.mem[lo - CODE:hi - CODE])
+        template[au - lo] = vu
+        st.writes.append("host-wide-write:%s:%s" % (TARGETS[tu][3], _block_state(st, tu)))
+        st.writes.append("host-narrow-write-inside-it:%s:%s" % (TARGETS[tt][3], _block_state(st, tt)))
+        jit.vm.set_mem(lo, bytes(template))
+        jit.vm.set_mem(at, bytes([vt]))
+        ref.mem[au - CODE] = vu
+        ref.mem[at - CODE] = vt
+        st.trailing_writes += 2
+        st.nwrites += 0 if st.in_seed else 2
         return []
     # go / run / cbw (run to END; the marker callback patches byte t at its first arrival and lets the run go on) /
     # enter (run to END from the mid-chain instruction T2 with EBP = 1: a second entry point into the translated chain
@@ -661,6 +687,8 @@ def _run_check(ctx):
         "main": {"depth": PHASE_DEPTH["main"][q], "configs": CONFIGS_QUICK if q else CONFIGS_THOROUGH, "seed_histories": PRES,
                  "targets": {"python": _targets(q, "python"), "gcc": _targets(q, "gcc")},
                  "callback_write_targets": CBW_QUICK if q else CBW_THOROUGH, "max_bytes_differing_from_original": 1 if q else 2,
+                 "overlapping_host_write_pairs": HW2_QUICK if q else HW2_THOROUGH,
+                 "string_store_events": GS_QUICK if q else GS_THOROUGH,
                  "shape": "seed ; <= %d writes ; runs (go / run / enter / cbw)" % (1 if q else 2)},
         "overlap": {"depth": PHASE_DEPTH["overlap"][q], "configs": OVERLAP_CONFIGS_QUICK if q else CONFIGS_THOROUGH, "seed_history": OVERLAP_PRE,
                     "targets": OVERLAP_TARGETS_QUICK if q else OVERLAP_TARGETS_THOROUGH, "max_writes": 2,
